@@ -245,8 +245,8 @@ def rule_r4(ctx: Ctx) -> None:
 
 
 def run(ctx: Ctx) -> None:
-    rule_r1(ctx)
-    rule_r2(ctx)
-    rule_r3(ctx)
-    rule_r4(ctx)
+    ctx.attempt(rule_r1, ctx)
+    ctx.attempt(rule_r2, ctx)
+    ctx.attempt(rule_r3, ctx)
+    ctx.attempt(rule_r4, ctx)
     ctx.undecided("equivalence of the four root-inference strategies for all argument spellings: file-system and working-directory dependent behaviour with no static abstraction in reach (only the order-independence of the bare-name strategy is decided)")
